@@ -546,11 +546,23 @@ impl datagram_pipe::Sink for DatagramSink {
         #[cfg(trusttunnel_verif)]
         verif_outcome.ok();
 
-        socket
+        match socket
             .send_to(datagram.payload.as_ref(), meta.destination)
             .await
-            .map(|_| datagram_pipe::SendStatus::Sent)
-            .map_err(socks_to_io_error)
+        {
+            Ok(_) => Ok(datagram_pipe::SendStatus::Sent),
+            Err(e) => {
+                // An error reported by the association socket (for example, ECONNREFUSED
+                // after an ICMP "port unreachable" from the relay) costs this datagram only:
+                // the multiplexer and the flows of the other associations must go on
+                log::debug!(
+                    "Failed to send UDP datagram: meta={:?} error={}",
+                    meta,
+                    socks_to_io_error(e)
+                );
+                Ok(datagram_pipe::SendStatus::Dropped)
+            }
+        }
     }
 }
 
